@@ -237,25 +237,24 @@ def run(prog, chk):
     chk.ob("R2.cursor-conservation", "asbytes", _ret_texts(F("asbytes")) == ["self.packet.getvalue()"], F("asbytes").f.loc, "asbytes is the whole buffer regardless of the cursor")
 
     # ---- R3 dispatch ----------------------------------------------------------------------------------------------------------
+    # evaluated over the value classes the dispatch distinguishes (bool is an int, so the order of the tests matters)
+    from ..core.interp import Interp, Obj
     fd = prog.method("Message", "_add")
     ip = fd.params()[1]
-    ladder = []
-    st = fd.node.body[0] if fd.node.body and isinstance(fd.node.body[0], ast.If) else None
-    while isinstance(st, ast.If):
-        ladder.append((unparse(st.test), unparse(st.body[0]) if st.body else ""))
-        if len(st.orelse) == 1 and isinstance(st.orelse[0], ast.If):
-            st = st.orelse[0]
-        else:
-            ladder.append(("else", unparse(st.orelse[0]) if st.orelse else ""))
-            st = None
-    tests = [t for (t, b) in ladder]
-    ib = [i for i, t in enumerate(tests) if "bool" in t]
-    ii = [i for i, t in enumerate(tests) if "int" in t and "bool" not in t]
-    okd = bool(ib) and bool(ii) and ib[0] < ii[0]
-    okd = okd and dict(ladder).get(tests[ib[0]], "") == "return self.add_boolean(%s)" % ip and dict(ladder).get(tests[ii[0]], "") == "return self.add_adaptive_int(%s)" % ip
-    il = [i for i, t in enumerate(tests) if "list" in t]
-    okd = okd and bool(il) and ladder[il[0]][1] == "return self.add_list(%s)" % ip and ladder[-1] == ("else", "return self.add_string(%s)" % ip)
-    chk.ob("R3.dispatch-bool-before-int", "_add", okd, fd.loc, "ladder %s" % ladder)
+    want = [(True, "add_boolean"), (False, "add_boolean"), (7, "add_adaptive_int"), (0, "add_adaptive_int"), (["a", "b"], "add_list"),
+            ("text", "add_string"), (b"bytes", "add_string")]
+    got = []
+    okd = True
+    for val, meth in want:
+        called = []
+        selfo = Obj(**dict((m_, (lambda v, m_=m_, called=called: called.append(m_) or "SELF")) for m_ in
+                           ("add_boolean", "add_adaptive_int", "add_list", "add_string", "add_int", "add_mpint", "add_bytes", "add_int64")))
+        it = Interp(intrinsics={"type": type, "isinstance": isinstance, "bool": bool, "int": int, "list": list, "str": str, "bytes": bytes}, arith=False)
+        kind, res = it.call_function(fd.node, {fd.params()[0]: selfo, ip: val})
+        got.append((type(val).__name__, called))
+        if kind != "return" or called != [meth]:
+            okd = False
+    chk.ob("R3.dispatch-bool-before-int", "_add", okd, fd.loc, "value class -> encoder: %s (want bool -> add_boolean, int -> add_adaptive_int, list -> add_list, str/bytes -> add_string)" % got)
     fadd = prog.method("Message", "add")
     loops = [n for n in walk_no_defs(fadd.node) if isinstance(n, ast.For)]
     oka = len(loops) == 1 and unparse(loops[0].iter) == fadd.node.args.vararg.arg and [unparse(s) for s in loops[0].body] == ["self._add(%s)" % unparse(loops[0].target)]
@@ -303,8 +302,11 @@ def run(prog, chk):
                        t, "; ".join(unparse(s) for s in x.body), d, "; ".join(_dual(s) for s in x.body),
                        "none" if partner is None else "; ".join(unparse(s) for s in partner.body)))
     chk.floor("R4", "dual arm pairs in deflate_long", npairs, 2)
-    deg = [x for x in ifs if unparse(x.test) == "n == 0" and x.orelse]
+    deg = [x for x in ifs if unparse(x.test) in ("n == 0", "not n == 0", "n != 0", "n == -1", "not n == -1", "n != -1") and x.orelse]
     okdeg = len(deg) == 1 and [_dual(s) for s in deg[0].body] == [unparse(s) for s in deg[0].orelse]
+    if okdeg:
+        zero_arm = deg[0].body if unparse(deg[0].test) in ("n == 0", "not n == -1", "n != -1") else deg[0].orelse
+        okdeg = [unparse(s) for s in zero_arm] == ["s = zero_byte"]
     chk.ob("R4.negative-arm-is-sign-dual", "deflate_long:degenerate", okdeg, df.loc, "n == 0 -> s = zero_byte else (n == -1) -> s = max_byte")
     pad = [x for x in ifs if unparse(x.test) == df.params()[1]]
     okpad = len(pad) == 1 and sum(1 for x in walk_no_defs(pad[0]) if isinstance(x, ast.If)) == 3
